@@ -110,6 +110,12 @@ impl LoadBalancer {
   pub async fn wait_for_connection(&self) -> Result<(), ZmqError> {
     let notify = self.notify_waiters.clone();
     loop {
+      // Register for the notification BEFORE checking: `notify_waiters()` only wakes waiters that
+      // are already registered, so a check-then-wait would miss a peer added in between.
+      let notified = notify.notified();
+      tokio::pin!(notified);
+      notified.as_mut().enable();
+
       if self.deactivated.load(std::sync::atomic::Ordering::Acquire) {
         return Err(ZmqError::InvalidState("Socket closed".into()));
       }
@@ -118,7 +124,7 @@ impl LoadBalancer {
       }
       #[cfg(rzmq_verif)]
       crate::verif::point("lb.wait.checked");
-      notify.notified().await;
+      notified.await;
     }
   }
 
